@@ -513,6 +513,13 @@ class Interp:
             return self.resolve_value(args[0], rest)
         fn = self.find_fn(c, len(args))
         if fn is None:
+            # std iterator adaptors re-implemented as MIR in the drivers crate (closures run at MIR level)
+            cc = canon_callee(c)
+            for pat, target in STD_REDIRECTS:
+                if pat.fullmatch(cc):
+                    tgt = self.find_fn(target, None)
+                    if tgt is not None:
+                        return ("mir", tgt, args)
             raise Inconclusive("no MIR body and no model for callee `%s`" % callee)
         if fn.name in self.redirects:
             # replace a function of the repository by an environment function written in the drivers crate
@@ -955,6 +962,20 @@ class Interp:
 
 # ------------------------------------------------------------------------------------------
 # helpers
+
+_IT = r"<(std|core)::(slice::Iter|iter::\w+)<.*> as Iterator>"
+STD_REDIRECTS = [
+    (re.compile(r"<.* as Iterator>::filter"), "drv_iter_filter"),
+    (re.compile(r"<.* as Iterator>::map"), "drv_iter_map"),
+    (re.compile(r"<(std::iter::)?Filter<.*> as Iterator>::count|<DrvFilter<.*> as Iterator>::count|<adaptors::DrvFilter<.*> as Iterator>::count"), "drv_filter_count"),
+    (re.compile(r"<(std::iter::)?Filter<.*> as Iterator>::next"), "drv_filter_next"),
+    (re.compile(r"<(std::iter::)?Map<.*> as Iterator>::next"), "drv_map_next"),
+    (re.compile(r"<.* as Iterator>::count"), "drv_iter_count"),
+    (re.compile(r"<.* as Iterator>::any"), "drv_iter_any"),
+    (re.compile(r"<.* as Iterator>::all"), "drv_iter_all"),
+    (re.compile(r"<.* as Iterator>::for_each"), "drv_iter_for_each"),
+]
+
 
 def canon_callee(name):
     s = name.strip()
